@@ -2,7 +2,11 @@
 
 package p_timers
 
-import "time"
+import (
+	"time"
+
+	"github.com/acquirecloud/golibs/timeout"
+)
 
 // Without the hooks the pool keeps its defaults (10 workers, 30 s idle): the wind-down part is skipped.
 const hooksOn = false
@@ -13,3 +17,5 @@ func pending() int                                 { return -1 }
 func heapSane() bool                               { return true }
 
 func withPoolLock(f func()) { f() }
+
+func fireTime(f timeout.Future) (time.Time, bool) { return time.Time{}, false }
